@@ -267,6 +267,10 @@ def random_session(rng, i):
             steps.append(("arrive", rng.random() < 0.7))
         else:
             steps.append(("raw", rng.choice((b"\x1b[<0;500;500M", b"\x1b[99~", b"\x00", b"\x1b[<64;1;1M", b"\xc3\xa9", b"\x1b[1;5A"))))
+    # type-ahead after the quit key: a burst in which q / Ctrl-C is followed by further keys (the request stands)
+    if rng.random() < 0.25:
+        steps.append(("keys", [rng.choice(KEYNAMES) for _ in range(rng.randrange(0, 2))] + [rng.choice(("q", "CtrlC"))]
+                      + [rng.choice(KEYNAMES) for _ in range(rng.randrange(1, 4))]))
     return dict(steps=steps, tag=f"random{i}", size=size, touch=rng.random() < 0.4, filter_time=rng.choice((120, 120, 1, 0)),
                 quit_at_end=rng.random() < 0.8)
 
